@@ -14,9 +14,8 @@ from harness.lib import common
 
 PROP = 'C10'
 PROP_FILE = 'Props/C10.v'
-THEOREMS = ['C10_flatten_path_idempotent', 'C10_flatten_path_no_dot_segments', 'C10_percent_encode_ascii_clean',
-            'C10_percent_encode_fixpoint', 'C10_upper_pe_idempotent', 'C10_upper_pe_escapes_upper',
-            'C10_ascii_clean', 'C10_canonical', 'C10_idempotent_partial']
+THEOREMS = ['C10_percent_encode_ascii_clean', 'C10_percent_encode_fixpoint',
+            'C10_upper_pe_idempotent', 'C10_upper_pe_escapes_upper']
 TRUSTED = [
     'hand-written model Model/Url.v + Model/UrlLib.v of wpull/url.py, tied by the vm_compute correspondence of this run '
     '(all attributes, .url, every accessor, error kind)',
@@ -427,9 +426,9 @@ def coq_case(case, res):
     return 'lstr_eqb (observe %s (%s)) %s' % (coq_oracles(case, res['oracles']), cq(case['url']), exp)
 
 
-def run_impl_parse(cases, prop=True, shard=400):
+def run_impl_parse(cases, prop=True, shard=400, script='c10_impl.py'):
     chunks = [cases[i:i + shard] for i in range(0, len(cases), shard)]
-    outs = common.run_impl_sharded('c10_impl.py', [{'mode': 'parse', 'cases': c, 'prop': prop} for c in chunks])
+    outs = common.run_impl_sharded(script, [{'mode': 'parse', 'cases': c, 'prop': prop} for c in chunks], par=6)
     res = []
     for o in outs:
         res += o['results']
@@ -476,7 +475,7 @@ def run_model(cases, results, per=150):
         items = [coq_case(c, res) for c, res in zip(cases[i:i + per], results[i:i + per])]
         bodies.append(HEADER + 'Definition checks : list bool := [\n  ' + ';\n  '.join(items) +
                       '].\nEval vm_compute in (failing checks).\n')
-    outs = common.coq_eval_many(bodies)
+    outs = common.coq_eval_many(bodies, par=6)
     dis = []
     for bi, (rc, out) in enumerate(outs):
         fails = common.parse_vm_list(out) if rc == 0 else None
@@ -564,7 +563,7 @@ def run_components(r, n, per=300):
         items = [coq_component(c, x) for c, x in zip(cs[i:i + per], res[i:i + per])]
         bodies.append(HEADER + 'Definition checks : list bool := [\n  ' + ';\n  '.join(items) +
                       '].\nEval vm_compute in (failing checks).\n')
-    outs = common.coq_eval_many(bodies)
+    outs = common.coq_eval_many(bodies, par=6)
     dis = []
     for bi, (rc, out) in enumerate(outs):
         fails = common.parse_vm_list(out) if rc == 0 else None
@@ -656,11 +655,11 @@ def classify(v):
     return classify_common(v)
 
 
-def correspondence(ctx, tag='c10', n_quick=6000, n_thorough=200000, pred=is_c10_reason):
+def correspondence(ctx, tag='c10', n_quick=6000, n_thorough=200000, pred=is_c10_reason, gen=None, script='c10_impl.py'):
     r = common.rng(tag)
     n = n_thorough if ctx.thorough else n_quick
-    cases = generate(r, n, ctx.repo)
-    results = run_impl_parse(cases)
+    cases = (gen or generate)(r, n, ctx.repo)
+    results = run_impl_parse(cases, script=script)
     dis = run_model(cases, results)
     ncomp, cdis = run_components(common.rng(tag + '-components'), 3000 if not ctx.thorough else 30000)
     dis += cdis
@@ -703,7 +702,7 @@ def correspondence(ctx, tag='c10', n_quick=6000, n_thorough=200000, pred=is_c10_
     }
 
 
-def search(ctx, disagreements, tag='c10-search', pred=is_c10_reason):
+def search(ctx, disagreements, tag='c10-search', pred=is_c10_reason, gen=None, script='c10_impl.py'):
     """look for an input on which the PROPERTY fails on the implementation (no Coq in the loop):
     the disagreeing inputs themselves, 10x the structured stream, the non-ASCII-transparent encodings."""
     r = common.rng(tag)
@@ -711,16 +710,16 @@ def search(ctx, disagreements, tag='c10-search', pred=is_c10_reason):
     for d in disagreements:
         if 'url_hex' in d:
             cases.append({'url': d['url_hex'], 'enc': d.get('enc', 'utf-8'), 'tag': 'disagreement', 'variants': []})
-    cases += generate(r, 60000 if not ctx.thorough else 300000, ctx.repo)
-    results = run_impl_parse(cases)
+    cases += (gen or generate)(r, 60000 if not ctx.thorough else 300000, ctx.repo)
+    results = run_impl_parse(cases, script=script)
     return violations_from(cases, results, pred)
 
 
-def replay(ctx, data, pred=is_c10_reason):
+def replay(ctx, data, pred=is_c10_reason, script='c10_impl.py'):
     case = dict(data['case'])
     case.setdefault('variants', [])
     case.setdefault('enc', 'utf-8')
-    res = run_impl_parse([case])[0]
+    res = run_impl_parse([case], script=script)[0]
     return any(pred(b) for b in res.get('bad', []))
 
 
